@@ -2,6 +2,7 @@ package sim
 
 import "fmt"
 
+//go:norace
 func init() { Runners["C20"] = runC20 }
 
 // runC20: histories with blocks queued, imports and removals running; a stop
@@ -9,6 +10,8 @@ func init() { Runners["C20"] = runC20 }
 // request a fair schedule must bring Stop to return with the database closed.
 // Without a stop request every announced tip must be processed and every
 // accepted task must finish (checked by finalCheck + wallet listing).
+//
+//go:norace
 func runC20(w *World, p map[string]int) {
 	t := w.Plan
 	w.SetKnobs(drawKnobs(w))
@@ -254,6 +257,8 @@ func runC20(w *World, p map[string]int) {
 }
 
 // walletGone reports whether id is no longer listed.
+//
+//go:norace
 func (w *World) walletGone(inst *Instance, id string) bool {
 	ls, err := inst.ListWallets()
 	if err != nil {
